@@ -30,31 +30,36 @@ type TemplateFormatter struct {
 	captureIndexes []int
 	captureCount   int
 	fmtString      string
+	// the template has no capture reference at all: fmtString is the result
+	literal bool
 }
 
 // NewTemplateFormatter instantiates a TemplateFormatter
 // from given template string and the maximum amount of captures.
 func NewTemplateFormatter(template string, captureCount int) *TemplateFormatter {
-	matches := templateReplaceCaptureRE.FindAllStringSubmatch(template, -1)
-	if len(matches) == 0 {
+	if !templateReplaceCaptureRE.MatchString(template) {
 		// if no regex reference found, keep it as it is
-		return &TemplateFormatter{captureCount: 0, fmtString: template}
+		return &TemplateFormatter{captureCount: 0, fmtString: template, literal: true}
 	}
 
 	var indexes []int
-	valueFormatter := template
-	for _, match := range matches {
+	// The result is used as a format string, so a literal % has to be escaped.
+	// The references are substituted in one pass over the template: replacing
+	// the text of one reference everywhere would also hit longer references
+	// that start with it ($1 inside $11).
+	escaped := strings.ReplaceAll(template, "%", "%%")
+	valueFormatter := templateReplaceCaptureRE.ReplaceAllStringFunc(escaped, func(ref string) string {
+		match := templateReplaceCaptureRE.FindStringSubmatch(ref)
 		idx, err := strconv.Atoi(match[len(match)-1])
 		if err != nil || idx > captureCount || idx < 1 {
 			// if index larger than captured count or using unsupported named capture group,
 			// replace with empty string
-			valueFormatter = strings.ReplaceAll(valueFormatter, match[0], "")
-		} else {
-			valueFormatter = strings.ReplaceAll(valueFormatter, match[0], "%s")
-			// note: the regex reference variable $? starts from 1
-			indexes = append(indexes, idx-1)
+			return ""
 		}
-	}
+		// note: the regex reference variable $? starts from 1
+		indexes = append(indexes, idx-1)
+		return "%s"
+	})
 	return &TemplateFormatter{
 		captureIndexes: indexes,
 		captureCount:   len(indexes),
@@ -65,7 +70,7 @@ func NewTemplateFormatter(template string, captureCount int) *TemplateFormatter 
 // Format accepts a list containing captured strings and returns the formatted
 // string using the template stored in current TemplateFormatter.
 func (formatter *TemplateFormatter) Format(captures []string) string {
-	if formatter.captureCount == 0 {
+	if formatter.literal {
 		// no label substitution, keep as it is
 		return formatter.fmtString
 	}
